@@ -15,6 +15,23 @@
 (*                                                                         *)
 (* Dialect d \in {"SQLite","PostgreSQL","MySQL","Oracle"} selects the      *)
 (* documented behaviour of substr and of the empty string (Oracle: NULL).  *)
+(*                                                                         *)
+(* Second part (C02): whole SELECT statements.  A statement is a record    *)
+(*   [distinct, agg: BOOLEAN, cols: <<expr>>, from: <<source>>,            *)
+(*    where, group, having: <<expr>>, order: << <<expr, "asc"|"desc">> >>, *)
+(*    limit: <<>> or <<limit, offset>>]                                    *)
+(* (harness/sqlast.py: ser_select), a source is [alias, table ("" for a    *)
+(* subselect), sub (<<>> or <<statement>>), on (join condition or          *)
+(* <<"NONE">>), left (BOOLEAN)].  Columns are <<"COLUMN", alias, name>>,   *)
+(* looked up in env.row[alias][name]; env.tabs holds the tables (sequences *)
+(* of row records), env.grp the rows of the current group for aggregates.  *)
+(* Dialect differences modelled: PostgreSQL has a boolean type (comparing  *)
+(* or combining it with integers is an error, conditions must be boolean), *)
+(* the others use 0/1; Oracle treats '' as NULL (and NULL as '' in ||);    *)
+(* NULLs sort first (SQLite, MySQL) or last (PostgreSQL, Oracle);          *)
+(* LIMIT -1 / a huge number / NULL as "no limit".  LIKE is case sensitive  *)
+(* (SQLite as configured by Pony, PostgreSQL, Oracle; MySQL under a binary *)
+(* collation - assumption), with ESCAPE.  Division is not modelled.        *)
 (***************************************************************************)
 EXTENDS Integers, Sequences, FiniteSets, TLC
 
@@ -136,34 +153,142 @@ Arith(op, a, b) ==
 
 Truth(x) == x.t = "bool" /\ x.v      \* a WHEN/WHERE condition holds only when TRUE
 
+---------------------------------------------------------------------------
+(* helpers of the SELECT part *)
+IsPG(d) == d = "PostgreSQL"
+(* a boolean is an integer 0/1 outside PostgreSQL *)
+NormB(d, x) == IF x.t = "bool" /\ ~IsPG(d) THEN I(IF x.v THEN 1 ELSE 0) ELSE x
+(* operand of AND / OR / NOT, condition of WHERE / HAVING / ON / CASE WHEN *)
+ToCond(d, x) == IF x.t \in {"bool", "null", "err"} THEN x
+                ELSE IF x.t = "int" /\ ~IsPG(d) THEN B(x.v # 0)
+                ELSE Err
+CmpD(d, op, a, b) == Cmp(op, NormB(d, a), NormB(d, b))
+And3E(a, b) == IF IsErr(a) \/ IsErr(b) THEN Err ELSE And3(a, b)
+Or3E(a, b)  == IF IsErr(a) \/ IsErr(b) THEN Err ELSE Or3(a, b)
+Not3E(a)    == IF IsErr(a) THEN Err ELSE Not3(a)
+(* a value as stored in / read from a table of dialect d *)
+LoadVal(d, x) == IF x.t = "str" THEN StrVal(d, x.v) ELSE NormB(d, x)
+
+UpC(c) == CASE c = "a" -> "A" [] c = "b" -> "B" [] c = "c" -> "C" [] OTHER -> c
+LoC(c) == CASE c = "A" -> "a" [] c = "B" -> "b" [] c = "C" -> "c" [] OTHER -> c
+
+(* s LIKE p ESCAPE esc (esc = "" when absent): % any sequence, _ any one character; case sensitive *)
+RECURSIVE LikeFrom(_, _, _, _, _)
+LikeFrom(s, i, p, j, esc) ==
+    IF j > Len(p) THEN i > Len(s)
+    ELSE IF esc # "" /\ p[j] = esc
+         THEN j + 1 <= Len(p) /\ i <= Len(s) /\ s[i] = p[j + 1] /\ LikeFrom(s, i + 1, p, j + 2, esc)
+    ELSE IF p[j] = "%" THEN \E k \in i .. (Len(s) + 1) : LikeFrom(s, k, p, j + 1, esc)
+    ELSE IF p[j] = "_" THEN i <= Len(s) /\ LikeFrom(s, i + 1, p, j + 1, esc)
+    ELSE i <= Len(s) /\ s[i] = p[j] /\ LikeFrom(s, i + 1, p, j + 1, esc)
+
+(* replace every occurrence of the one-character string from by the sequence to *)
+RECURSIVE ReplaceChars(_, _, _, _)
+ReplaceChars(s, i, from, to) ==
+    IF i > Len(s) THEN <<>>
+    ELSE (IF s[i] = from THEN to ELSE <<s[i]>>) \o ReplaceChars(s, i + 1, from, to)
+
+SameRow(r1, r2) == Len(r1) = Len(r2) /\ \A j \in 1 .. Len(r1) : SameVal(r1[j], r2[j])
+RowHasErr(r) == \E j \in 1 .. Len(r) : IsErr(r[j])
+
+RECURSIVE DedupVals(_, _, _)
+DedupVals(vals, i, acc) ==
+    IF i > Len(vals) THEN acc
+    ELSE IF \E k \in 1 .. Len(acc) : SameVal(acc[k], vals[i]) THEN DedupVals(vals, i + 1, acc)
+    ELSE DedupVals(vals, i + 1, Append(acc, vals[i]))
+RECURSIVE SumVals(_, _)
+SumVals(vals, i) == IF i > Len(vals) THEN 0 ELSE vals[i].v + SumVals(vals, i + 1)
+RECURSIVE ExtVals(_, _, _, _)
+ExtVals(op, vals, i, acc) ==
+    IF i > Len(vals) THEN acc
+    ELSE ExtVals(op, vals, i + 1, IF op = "MAX" THEN (IF vals[i].v > acc.v THEN vals[i] ELSE acc)
+                                  ELSE (IF vals[i].v < acc.v THEN vals[i] ELSE acc))
+
 RECURSIVE Eval(_, _, _)
+RECURSIVE EvalSelect(_, _, _)
+RECURSIVE ConcatFrom(_, _, _, _)
 RECURSIVE EvalCase(_, _, _, _, _)
 RECURSIVE FoldMaxMin(_, _, _, _, _)
 RECURSIVE Coalesce(_, _, _, _)
 
 Eval(e, env, d) ==
     LET op == e[1] IN
-    CASE op = "VALUE"  -> IF e[2].t = "str" THEN StrVal(d, e[2].v) ELSE e[2]
-      [] op = "COLUMN" -> env[e[2]]
+    CASE op = "VALUE"  -> IF e[2].t = "str" THEN StrVal(d, e[2].v) ELSE NormB(d, e[2])
+      [] op = "COLUMN" -> IF Len(e) = 2 THEN env[e[2]] ELSE env.row[e[2]][e[3]]
       [] op = "PARAM"  -> env[e[2]]
       [] op = "NONE"   -> Null
       [] op \in {"ADD", "SUB", "MUL"} -> Arith(op, Eval(e[2], env, d), Eval(e[3], env, d))
       [] op = "NEG" -> Arith("SUB", I(0), Eval(e[2], env, d))
-      [] op \in {"EQ", "NE", "LT", "LE", "GT", "GE"} -> Cmp(op, Eval(e[2], env, d), Eval(e[3], env, d))
-      [] op = "AND" -> And3(Eval(e[2], env, d), IF Len(e) = 3 THEN Eval(e[3], env, d) ELSE Eval(<<"AND">> \o Tail(Tail(e)), env, d))
-      [] op = "OR"  -> Or3(Eval(e[2], env, d), IF Len(e) = 3 THEN Eval(e[3], env, d) ELSE Eval(<<"OR">> \o Tail(Tail(e)), env, d))
-      [] op = "NOT" -> Not3(Eval(e[2], env, d))
+      [] op \in {"EQ", "NE", "LT", "LE", "GT", "GE"} -> CmpD(d, op, Eval(e[2], env, d), Eval(e[3], env, d))
+      [] op = "AND" -> And3E(ToCond(d, Eval(e[2], env, d)),
+                             ToCond(d, IF Len(e) = 3 THEN Eval(e[3], env, d) ELSE Eval(<<"AND">> \o Tail(Tail(e)), env, d)))
+      [] op = "OR"  -> Or3E(ToCond(d, Eval(e[2], env, d)),
+                            ToCond(d, IF Len(e) = 3 THEN Eval(e[3], env, d) ELSE Eval(<<"OR">> \o Tail(Tail(e)), env, d)))
+      [] op = "NOT" -> Not3E(ToCond(d, Eval(e[2], env, d)))
       [] op = "IS_NULL" -> B(IsNull(Eval(e[2], env, d)))
       [] op = "IS_NOT_NULL" -> B(~IsNull(Eval(e[2], env, d)))
       [] op = "LENGTH" -> LET x == Eval(e[2], env, d) IN
                           IF IsNull(x) \/ IsErr(x) THEN x ELSE I(Len(x.v))
-      [] op = "IF" -> LET c == Eval(e[2], env, d) IN
+      [] op = "IF" -> LET c == ToCond(d, Eval(e[2], env, d)) IN
                       IF IsErr(c) THEN Err
                       ELSE IF Truth(c) THEN Eval(e[3], env, d)
                       ELSE IF Len(e) >= 4 THEN Eval(e[4], env, d) ELSE Null
       [] op = "CASE" -> EvalCase(e[2], e[3], IF Len(e) >= 4 THEN e[4] ELSE <<"NONE">>, env, d)
       [] op = "COALESCE" -> Coalesce(e, 2, env, d)
-      [] op \in {"MAX", "MIN"} -> FoldMaxMin(op, e, 4, Eval(e[3], env, d), <<env, d>>)
+      [] op \in {"MAX", "MIN"} /\ Len(e) >= 4 -> FoldMaxMin(op, e, 4, Eval(e[3], env, d), <<env, d>>)
+      [] op \in {"MAX", "MIN", "SUM", "COUNT"} ->      \* aggregate over the rows of the current group: <<op, distinct, expr>>
+            LET vals0 == IF Len(e) < 3 THEN [i \in 1 .. Len(env.grp) |-> I(1)]          \* COUNT(*)
+                         ELSE [i \in 1 .. Len(env.grp) |-> Eval(e[3], [env EXCEPT !.row = env.grp[i]], d)]
+                vals1 == SelectSeq(vals0, LAMBDA x : ~IsNull(x))
+                dist  == e[2][1] = "VALUE" /\ e[2][2].t = "bool" /\ e[2][2].v
+                vals  == IF dist THEN DedupVals(vals1, 1, <<>>) ELSE vals1
+            IN IF \E i \in 1 .. Len(vals) : IsErr(vals[i]) THEN Err
+               ELSE IF op = "COUNT" THEN I(Len(vals))
+               ELSE IF Len(vals) = 0 THEN (IF op = "SUM" THEN I(0) ELSE Null)   \* every builder renders SUM as coalesce(SUM(x), 0)
+               ELSE IF \E i \in 1 .. Len(vals) : vals[i].t # "int" THEN Err
+               ELSE IF op = "SUM" THEN I(SumVals(vals, 1))
+               ELSE ExtVals(op, vals, 2, vals[1])
+      [] op = "ABS" -> LET x == Eval(e[2], env, d) IN
+                       IF IsNull(x) \/ IsErr(x) THEN x ELSE IF x.t # "int" THEN Err ELSE I(IF x.v < 0 THEN -x.v ELSE x.v)
+      [] op \in {"UPPER", "LOWER", "PY_UPPER", "PY_LOWER"} ->     \* PY_*: SQLite, Python's str.upper/lower as UDF
+            LET x == Eval(e[2], env, d) IN
+            IF IsNull(x) \/ IsErr(x) THEN x ELSE IF x.t # "str" THEN Err
+            ELSE StrVal(d, [i \in 1 .. Len(x.v) |-> IF op \in {"UPPER", "PY_UPPER"} THEN UpC(x.v[i]) ELSE LoC(x.v[i])])
+      [] op = "CONCAT" -> ConcatFrom(e, 2, env, d)
+      [] op = "REPLACE" ->
+            LET x == Eval(e[2], env, d)
+                f == Eval(e[3], env, d)
+                t == Eval(e[4], env, d)
+            IN IF IsErr(x) \/ IsErr(f) \/ IsErr(t) THEN Err
+               ELSE IF IsNull(x) THEN Null
+               ELSE IF f.t # "str" \/ t.t # "str" \/ x.t # "str" \/ Len(f.v) # 1 THEN Err
+               ELSE StrVal(d, ReplaceChars(x.v, 1, f.v[1], t.v))
+      [] op \in {"LIKE", "NOT_LIKE"} ->
+            LET x == Eval(e[2], env, d)
+                p == Eval(e[3], env, d)
+                esc == IF Len(e) >= 4 THEN Eval(e[4], env, d) ELSE S(<<>>)
+            IN IF IsErr(x) \/ IsErr(p) \/ IsErr(esc) THEN Err
+               ELSE IF IsNull(x) \/ IsNull(p) \/ IsNull(esc) THEN Null
+               ELSE IF x.t # "str" \/ p.t # "str" \/ esc.t # "str" \/ Len(esc.v) > 1 THEN Err
+               ELSE LET m == LikeFrom(x.v, 1, p.v, 1, IF Len(esc.v) = 1 THEN esc.v[1] ELSE "")
+                    IN B(IF op = "LIKE" THEN m ELSE ~m)
+      [] op \in {"IN", "NOT_IN"} ->       \* <<op, x, <<"LIST", e1, ..>>>> or <<op, x, <<"SUBSELECT", stmt>>>>
+            LET x == NormB(d, Eval(e[2], env, d))
+                sub == IF e[3][1] = "SUBSELECT" THEN EvalSelect(e[3][2], env, d) ELSE [ok |-> TRUE, rows |-> <<>>]
+                items == IF e[3][1] = "SUBSELECT" THEN [i \in 1 .. Len(sub.rows) |-> NormB(d, sub.rows[i][1])]
+                         ELSE [i \in 1 .. (Len(e[3]) - 1) |-> NormB(d, Eval(e[3][i + 1], env, d))]
+                r == IF ~sub.ok \/ IsErr(x) \/ (\E i \in 1 .. Len(items) : IsErr(items[i])) THEN Err
+                     ELSE IF Len(items) = 0 THEN B(FALSE)
+                     ELSE IF IsNull(x) THEN Null
+                     ELSE IF \E i \in 1 .. Len(items) : ~IsNull(items[i]) /\ items[i].t # x.t THEN Err
+                     ELSE IF \E i \in 1 .. Len(items) : SameVal(items[i], x) THEN B(TRUE)
+                     ELSE IF \E i \in 1 .. Len(items) : IsNull(items[i]) THEN Null
+                     ELSE B(FALSE)
+            IN IF op = "IN" THEN r ELSE Not3E(r)
+      [] op \in {"EXISTS", "NOT_EXISTS"} ->
+            LET sub == EvalSelect(e[2], env, d) IN
+            IF ~sub.ok THEN Err ELSE B(IF op = "EXISTS" THEN Len(sub.rows) > 0 ELSE Len(sub.rows) = 0)
+      [] op = "AS" -> Eval(e[2], env, d)
       [] op = "SUBSTR" ->
             LET x == Eval(e[2], env, d)
                 p == Eval(e[3], env, d)
@@ -182,8 +307,8 @@ Eval(e, env, d) ==
 EvalCase(subject, whens, else_, env, d) ==
     IF Len(whens) = 0 THEN Eval(else_, env, d)
     ELSE LET w == whens[1]
-             c == IF subject[1] = "NONE" THEN Eval(w[1], env, d)
-                  ELSE Cmp("EQ", Eval(subject, env, d), Eval(w[1], env, d))
+             c == IF subject[1] = "NONE" THEN ToCond(d, Eval(w[1], env, d))
+                  ELSE CmpD(d, "EQ", Eval(subject, env, d), Eval(w[1], env, d))
          IN IF IsErr(c) THEN Err
             ELSE IF Truth(c) THEN Eval(w[2], env, d)
             ELSE EvalCase(subject, Tail(whens), else_, env, d)
@@ -201,5 +326,148 @@ FoldMaxMin(op, e, k, acc, ed) ==
                     ELSE IF IsNull(acc) \/ IsNull(x) THEN (IF ed[2] = "PostgreSQL" THEN (IF IsNull(acc) THEN x ELSE acc) ELSE Null)
                     ELSE IF op = "MAX" THEN I(Max2(acc.v, x.v)) ELSE I(Min2(acc.v, x.v))
          IN FoldMaxMin(op, e, k + 1, nxt, ed)
+
+(* a || b || ...: NULL if any operand is NULL; Oracle treats NULL as the empty string *)
+ConcatFrom(e, k, env, d) ==
+    IF k > Len(e) THEN S(<<>>)
+    ELSE LET x == Eval(e[k], env, d)
+             rest == ConcatFrom(e, k + 1, env, d)
+         IN IF IsErr(x) \/ IsErr(rest) THEN Err
+            ELSE IF d = "Oracle" THEN
+                 (LET a == IF IsNull(x) THEN <<>> ELSE x.v
+                      b == IF IsNull(rest) THEN <<>> ELSE rest.v
+                  IN IF ~IsNull(x) /\ x.t # "str" THEN Err ELSE IF k = 2 THEN StrVal(d, a \o b) ELSE S(a \o b))
+            ELSE IF IsNull(x) \/ IsNull(rest) THEN Null
+            ELSE IF x.t # "str" THEN Err ELSE S(x.v \o rest.v)
+
+---------------------------------------------------------------------------
+(* SELECT statements *)
+EmptyRowMap == [a \in {} |-> 0]
+
+(* rows of one source as records column -> value *)
+SourceRows(src, env, d) ==
+    IF src.table # ""
+    THEN LET rows == env.tabs[src.table] IN
+         [ok |-> TRUE, rows |-> [i \in 1 .. Len(rows) |-> [c \in DOMAIN rows[i] |-> LoadVal(d, rows[i][c])]]]
+    ELSE LET sub == EvalSelect(src.sub[1], env, d)
+             names == src.sub[1].names
+         IN [ok |-> sub.ok,
+             rows |-> [i \in 1 .. Len(sub.rows) |->
+                          [c \in {names[j] : j \in 1 .. Len(names)} |-> sub.rows[i][CHOOSE j \in 1 .. Len(names) : names[j] = c]]]]
+NullRowOf(src, env) ==
+    IF src.table # "" THEN [c \in DOMAIN env.tabs[src.table][1] |-> Null]
+    ELSE [c \in {src.sub[1].names[j] : j \in 1 .. Len(src.sub[1].names)} |-> Null]
+
+CondVal(c, rowmap, env, d) == ToCond(d, Eval(c, [env EXCEPT !.row = rowmap], d))
+
+(* join the sources from[k..] onto the partial row maps acc (sequence of alias -> row); result [ok, maps] *)
+RECURSIVE JoinFrom(_, _, _, _, _)
+JoinFrom(from, k, acc, env, d) ==
+    IF k > Len(from) THEN [ok |-> TRUE, maps |-> acc]
+    ELSE
+      LET src == from[k]
+          RECURSIVE Ext(_, _)
+          \* extend the i-th partial map with every matching row of the source
+          Ext(i, out) ==
+              IF i > Len(acc) THEN out
+              ELSE LET sr == SourceRows(src, [env EXCEPT !.row = acc[i]], d)
+                       cand == [j \in 1 .. Len(sr.rows) |-> (src.alias :> sr.rows[j]) @@ acc[i]]
+                       cv == [j \in 1 .. Len(cand) |-> IF src.on[1] = "NONE" THEN B(TRUE) ELSE CondVal(src.on, cand[j], env, d)]
+                       bad == ~sr.ok \/ \E j \in 1 .. Len(cand) : IsErr(cv[j])
+                       hits == SelectSeq([j \in 1 .. Len(cand) |-> [m |-> cand[j], c |-> cv[j]]], LAMBDA h : Truth(h.c))
+                       maps == IF Len(hits) = 0 /\ src.left
+                               THEN << (src.alias :> NullRowOf(src, env)) @@ acc[i] >>
+                               ELSE [j \in 1 .. Len(hits) |-> hits[j].m]
+                   IN Ext(i + 1, [ok |-> out.ok /\ ~bad, maps |-> out.maps \o maps])
+          step == Ext(1, [ok |-> TRUE, maps |-> <<>>])
+      IN IF ~step.ok THEN [ok |-> FALSE, maps |-> <<>>]
+         ELSE JoinFrom(from, k + 1, step.maps, env, d)
+
+(* all conditions hold (TRUE) / some condition is an error *)
+AllTrue(conds, rowmap, env, d) == \A j \in 1 .. Len(conds) : Truth(CondVal(conds[j], rowmap, env, d))
+AnyErr(conds, rowmap, env, d) == \E j \in 1 .. Len(conds) : IsErr(CondVal(conds[j], rowmap, env, d))
+
+(* groups: sequence of sequences of row maps, grouped by the values of the key expressions (NULLs together) *)
+RECURSIVE GroupBy(_, _, _, _, _)
+GroupBy(maps, i, keys, acc, ed) ==
+    IF i > Len(maps) THEN acc
+    ELSE LET kv == [j \in 1 .. Len(keys) |-> Eval(keys[j], [ed[1] EXCEPT !.row = maps[i]], ed[2])]
+             hit == {g \in 1 .. Len(acc) : SameRow(acc[g].key, kv)}
+         IN IF hit = {} THEN GroupBy(maps, i + 1, keys, Append(acc, [key |-> kv, rows |-> <<maps[i]>>]), ed)
+            ELSE LET g == CHOOSE x \in hit : TRUE
+                 IN GroupBy(maps, i + 1, keys, [acc EXCEPT ![g].rows = Append(@, maps[i])], ed)
+
+RECURSIVE DedupRows(_, _, _)
+DedupRows(items, i, acc) ==
+    IF i > Len(items) THEN acc
+    ELSE IF \E k \in 1 .. Len(acc) : SameRow(acc[k].row, items[i].row) THEN DedupRows(items, i + 1, acc)
+    ELSE DedupRows(items, i + 1, Append(acc, items[i]))
+
+NullsFirst(d) == d \in {"SQLite", "MySQL"}
+(* key tuple k1 sorts strictly before k2 *)
+RECURSIVE KeyBefore(_, _, _, _, _)
+KeyBefore(k1, k2, dirs, j, d) ==
+    IF j > Len(k1) THEN FALSE
+    ELSE LET x == k1[j]
+             y == k2[j]
+             \* ascending order of the dialect, NULLs at the dialect's end
+             lt == IF IsNull(x) /\ IsNull(y) THEN FALSE
+                   ELSE IF IsNull(x) THEN NullsFirst(d)
+                   ELSE IF IsNull(y) THEN ~NullsFirst(d)
+                   ELSE x.v < y.v
+             gt == IF IsNull(x) /\ IsNull(y) THEN FALSE
+                   ELSE IF IsNull(y) THEN NullsFirst(d)
+                   ELSE IF IsNull(x) THEN ~NullsFirst(d)
+                   ELSE x.v > y.v
+         IN IF dirs[j] = "asc" THEN (lt \/ (~gt /\ KeyBefore(k1, k2, dirs, j + 1, d)))
+            ELSE (gt \/ (~lt /\ KeyBefore(k1, k2, dirs, j + 1, d)))
+
+RECURSIVE InsertByKey(_, _, _, _, _)
+InsertByKey(sorted, item, dirs, i, d) ==
+    IF i > Len(sorted) THEN Append(sorted, item)
+    ELSE IF KeyBefore(item.key, sorted[i].key, dirs, 1, d)
+         THEN SubSeq(sorted, 1, i - 1) \o <<item>> \o SubSeq(sorted, i, Len(sorted))
+         ELSE InsertByKey(sorted, item, dirs, i + 1, d)
+RECURSIVE SortByKey(_, _, _, _, _)
+SortByKey(items, dirs, i, acc, d) ==
+    IF i > Len(items) THEN acc ELSE SortByKey(items, dirs, i + 1, InsertByKey(acc, items[i], dirs, 1, d), d)
+
+(* LIMIT: <<limit, offset>>; no limit = NULL / NONE (PostgreSQL, Oracle), -1 (SQLite), a number >= 2^31 (MySQL) *)
+ApplyLimit(items, lim, env, d) ==
+    IF Len(lim) = 0 THEN [ok |-> TRUE, items |-> items]
+    ELSE LET l == Eval(lim[1], env, d)
+             o == IF Len(lim) >= 2 THEN Eval(lim[2], env, d) ELSE I(0)
+             off == IF IsNull(o) THEN 0 ELSE o.v
+             unbounded == IsNull(l) \/ l.t = "big" \/ (l.t = "int" /\ l.v = -1 /\ d = "SQLite")
+             bad == (l.t = "int" /\ l.v < 0 /\ ~unbounded) \/ (l.t = "big" /\ d # "MySQL") \/ l.t \notin {"int", "big", "null"} \/ off < 0
+             n == Len(items)
+             hi == IF unbounded THEN n ELSE Min2(n, off + l.v)
+         IN IF bad THEN [ok |-> FALSE, items |-> <<>>]
+            ELSE [ok |-> TRUE, items |-> IF off >= n \/ hi <= off THEN <<>> ELSE SubSeq(items, off + 1, hi)]
+
+EvalSelect(st, outer, d) ==
+    LET base  == IF "row" \in DOMAIN outer THEN outer.row ELSE EmptyRowMap
+        env0  == [tabs |-> outer.tabs, row |-> base, grp |-> <<>>]
+        joined == JoinFrom(st.from, 1, <<base>>, env0, d)
+        werr  == \E i \in 1 .. Len(joined.maps) : AnyErr(st.where, joined.maps[i], env0, d)
+        kept  == SelectSeq(joined.maps, LAMBDA m : AllTrue(st.where, m, env0, d))
+        grouped == Len(st.group) > 0 \/ st.agg
+        groups0 == IF Len(st.group) > 0 THEN GroupBy(kept, 1, st.group, <<>>, <<env0, d>>)
+                   ELSE IF st.agg THEN << [key |-> <<>>, rows |-> kept] >>
+                   ELSE [i \in 1 .. Len(kept) |-> [key |-> <<>>, rows |-> <<kept[i]>>]]
+        \* evaluation context of one group: the first row stands for the grouping columns
+        CtxOf(g) == [tabs |-> outer.tabs, grp |-> g.rows, row |-> IF Len(g.rows) > 0 THEN g.rows[1] ELSE base]
+        herr  == \E i \in 1 .. Len(groups0) : \E j \in 1 .. Len(st.having) : IsErr(ToCond(d, Eval(st.having[j], CtxOf(groups0[i]), d)))
+        groups == SelectSeq(groups0, LAMBDA g : \A j \in 1 .. Len(st.having) : Truth(ToCond(d, Eval(st.having[j], CtxOf(g), d))))
+        items0 == [i \in 1 .. Len(groups) |->
+                     [row |-> [j \in 1 .. Len(st.cols) |-> Eval(st.cols[j], CtxOf(groups[i]), d)],
+                      key |-> [j \in 1 .. Len(st.order) |-> Eval(st.order[j][1], CtxOf(groups[i]), d)]]]
+        items1 == IF st.distinct THEN DedupRows(items0, 1, <<>>) ELSE items0
+        dirs   == [j \in 1 .. Len(st.order) |-> st.order[j][2]]
+        items2 == IF Len(st.order) = 0 THEN items1 ELSE SortByKey(items1, dirs, 1, <<>>, d)
+        lim    == ApplyLimit(items2, st.limit, env0, d)
+        rows   == [i \in 1 .. Len(lim.items) |-> lim.items[i].row]
+        rerr   == \E i \in 1 .. Len(items0) : RowHasErr(items0[i].row) \/ RowHasErr(items0[i].key)
+    IN [ok |-> joined.ok /\ ~werr /\ ~herr /\ ~rerr /\ lim.ok, rows |-> rows]
 
 =============================================================================
